@@ -116,6 +116,32 @@ fn short_strings(max: usize) -> impl Iterator<Item = Case> {
   })
 }
 
+/// Units of percent-encoding and of the URL delimiters: complete, truncated and malformed triplets next to each other and
+/// next to `/ ? # :` (scanners that look ahead after a `%` are at their most fragile here).
+const ESCAPE_UNITS: &[&str] = &["%41", "%4", "%", "%zz", "%2F", "/", "?", "#", ":", "a", "="];
+
+/// All words of at most `max` escape units behind each prefix, for every text entry point.
+fn escape_words(max: usize) -> impl Iterator<Item = Case> {
+  let eps: Vec<EntryPoint> = entry_points().into_iter().filter(|e| e.kind == Kind::Text).collect();
+  eps.into_iter().flat_map(move |ep| {
+    let prefixes: Vec<&'static str> = ep.prefixes.to_vec();
+    prefixes.into_iter().flat_map(move |prefix| {
+      let n = ESCAPE_UNITS.len();
+      (1..=max).flat_map(move |len| {
+        let total = n.pow(len as u32);
+        (0..total).map(move |mut k| {
+          let mut s = String::from(prefix);
+          for _ in 0..len {
+            s.push_str(ESCAPE_UNITS[k % n]);
+            k /= n;
+          }
+          Case::Text { entry: ep.name.to_string(), s }
+        })
+      })
+    })
+  })
+}
+
 /// Every seed of every entry point, unmodified (the accessor sweeps must run at least on these).
 fn all_seeds() -> impl Iterator<Item = Case> {
   entry_points()
@@ -198,6 +224,8 @@ pub fn run(ctx: &mut Ctx) {
   ctx.exhaustive("seeds", all_seeds, check);
   let depth = ctx.pick(2, 3);
   ctx.exhaustive("short-strings", move || short_strings(depth), check);
+  let escape_depth = ctx.pick(4, 5);
+  ctx.exhaustive("escape-words", move || escape_words(escape_depth), check);
   ctx.proptest("mutated-seeds", ctx.pick(60_000, 3_000_000), mutated_seed_strategy, check);
   ctx.proptest("json-mutation", ctx.pick(40_000, 2_000_000), json_mutation_strategy, check);
   ctx.proptest("cross-feed", ctx.pick(10_000, 300_000), cross_strategy, check);
